@@ -1,10 +1,13 @@
 import PdshVerif.Dsh.TimedHealthy
 import PdshVerif.Dsh.TimedBound
+import PdshVerif.Dsh.TimedK
 
 /-!
 # C07 — a failing or slow host never harms the others; timeouts bound the run
 
-Model: `Dsh/Timed.lean` = the Fan LTS of C03/C04 (dispatcher, workers, mutex/condvar) + an integer
+Model: `Dsh/Timed.lean` = the fan-out LTS of C03/C04 in its general form `Dsh/FanG.lean` (dispatcher, workers,
+mutex/condvar; EVERY signalling discipline: wake-up call inside or after the critical section, signal | broadcast —
+so every theorem below holds for each of them) + an integer
 clock + one record per target (phase NEW/RCMD/connecting/READING/finished, `start`, `connect`,
 pending SIGALRM, the two streams, outcome, what dsh.c printed about it) + the watchdog (`scan` every
 WDOG_POLL seconds, SIGALRM to overdue targets, effective iff the target is blocked in connect or
@@ -25,8 +28,8 @@ release its fanout slot.  A wait interrupted by a signal would give the command 
 signals targets that are connecting or reading.
 
 What is proved (all fanouts, all numbers of targets, all fault vectors, all schedules):
-* `fan_refinement`: a timed execution is a Fan execution — C03/C04 carry over (`inflight_le_fanout_timed`,
-  `each_target_connected_once`);
+* `fan_refinement`: a timed execution is a `FanG` execution — C03/C04 (`Props/C03 G.*`, `Props/C04 G.*`) carry over
+  (`inflight_le_fanout_timed`, `each_target_connected_once`);
 * `non_interference_step` / `non_interference`: a target's record evolves as a function of the record,
   its OWN script, the timeouts and the clock only;
 * `healthy_never_interrupted`, `healthy_complete`: a target that accepts within the connect timeout and
@@ -49,10 +52,21 @@ The connect outcome of the model is success / failure (`Conn.ok` / `refuse` / in
 the correspondence maps `rcmd_connect() ≥ 0` to success, and the descriptor VALUE the scripted transport returns is
 generated over {0, 1, 2, ≥ 3} (harness key `lowfds`).
 
-Not proved here: that dsh.c refines the LTS (trace correspondence of `checks/c07.py`); anything below
-the granularity "operations + blocking calls" (a SIGALRM that finds the worker between two xpoll calls
-is lost — finding F07-LOSTALRM — the model's workers are always inside xpoll while READING);
-scheduling latency of real threads; `-k`; DNS.
+* `-k` (section `K`, LTS `Dsh/TimedK.lean` = the timed LTS + the fail-fast exit): `K.failfast_enabled` (the exit is
+  enabled as soon as a failed target's worker has left `rcmd_destroy`, whatever everybody else does),
+  `K.failfast_now` (no time passes and the failed worker does not give its slot back while the exit is pending),
+  `K.exit_is_end`, `K.abort_signals_reading` (SIGTERM to every READING target, nobody else's record touched),
+  `K.refines_timed` (until the exit a -k run IS a timed run: all of the above applies),
+  `K.without_k_is_timed` (fail-fast only if asked).
+The pdcp worker `_rcp_thread` runs the same slot protocol; its connect phase (refuse, hang, delays straddling the
+deadline) is under this correspondence too (pinned cases `pers pcp`).
+
+Not proved here: that dsh.c refines the LTS (trace correspondence of `checks/c07.py`; `pdshmodel timed` runs
+`TimedK.step` = `Timed.step` over `FanG.step`, plus the -k exit); anything below the granularity "operations +
+blocking calls" (a SIGALRM that finds the worker between two xpoll calls is lost — finding F07-LOSTALRM — the
+model's workers are always inside xpoll while READING); scheduling latency of real threads; `pthread_create`
+failure under -k; that `_fwd_signal` leaves targets that are already in their teardown unsignalled when pdsh exits
+(they are: only DSH_READING slots are signalled — not constrained by the property); DNS.
 -/
 namespace PdshVerif.Props.C07
 open PdshVerif.Dsh PdshVerif.Dsh.Timed
@@ -60,23 +74,23 @@ open PdshVerif.Dsh PdshVerif.Dsh.Timed
 /-- every timed execution, with clock, watchdog and reads forgotten, is an execution of the fan-out
     LTS of C03/C04 -/
 theorem fan_refinement {v f c scripts} {ls : List Label} {s : St} (he : Exec (init v f c scripts) ls s) :
-    Fan.Exec (Fan.init v f scripts.length) (ls.filterMap projLabel) s.fan := by
+    FanG.Exec (FanG.init v f scripts.length) (ls.filterMap projLabel) s.fan := by
   simpa [init] using exec_proj he
 
 /-- C04 for the timed system: faults and timeouts never push the number of connections in flight
     beyond the fanout (`while` construct) -/
 theorem inflight_le_fanout_timed {f c scripts} {s : St} (h : Reach .whileWait f c scripts s) :
-    Fan.inflight s.fan ≤ f := by
+    FanG.inflight s.fan ≤ f := by
   have hr := reach_proj h
   obtain ⟨ls, he⟩ := hr
-  have hb := Fan.bound_exec (s0 := Fan.init .whileWait f scripts.length) rfl (Fan.inv_init _ _ _)
-    (Fan.bound_init _ _ _) he
-  have hf := (Fan.exec_params he).2.1
-  simp [Fan.init] at hf
-  have h2 := (Fan.inv_exec (Fan.inv_init _ _ _) he).cnt
-  have h3 := Fan.flying_le_counted s.fan.ws
+  have hb := FanG.bound_exec (s0 := FanG.init .whileWait f scripts.length) rfl (FanG.inv_init _ _ _)
+    (FanG.bound_init _ _ _) he
+  have hf := (FanG.exec_params he).2.1
+  simp [FanG.init] at hf
+  have h2 := (FanG.inv_exec (FanG.inv_init _ _ _) he).cnt
+  have h3 := FanG.flying_le_counted s.fan.ws
   have := hb.le
-  unfold Fan.inflight; omega
+  unfold FanG.inflight; omega
 
 /-- C04 ACROSS TIMEOUTS, in terms of the target records: the number of targets whose connect has begun and whose
     `rcmd_destroy` has not returned never exceeds the fanout — whatever refuses, hangs, is given up on at a
@@ -89,7 +103,7 @@ theorem inflight_le_fanout {f c scripts} {s : St} (h : Reach .whileWait f c scri
 /-- a remote command that is alive belongs to a worker that still holds its fanout slot (it is between
     `rcmd_connect` and the return of `rcmd_destroy`): the slot is released only after the command is gone -/
 theorem alive_holds_slot {v f c scripts} {s : St} (h : Reach v f c scripts s) {j : Nat} (hj : j < s.hs.length)
-    (ha : (s.host j).alive s.now = true) : Fan.flying (Fan.pc s.fan j) = true := by
+    (ha : (s.host j).alive s.now = true) : FanG.flying (FanG.pc s.fan j) = true := by
   obtain ⟨ls, he⟩ := h
   have hti := tinv_exec (tinv_init _ _ _ _) he
   have hdi := dinv_exec he
@@ -113,7 +127,7 @@ theorem alive_le_fanout {f c scripts} {s : St} (h : Reach .whileWait f c scripts
 
 /-- while the command is not gone the worker stays in `rcmd_destroy` -/
 theorem teardown_waits {v f c scripts} {s : St} (h : Reach v f c scripts s) {j : Nat} (hj : j < s.hs.length)
-    (hpc : Fan.pc s.fan j = .tearing) (ha : (s.host j).alive s.now = true) :
+    (hpc : FanG.pc s.fan j = .tearing) (ha : (s.host j).alive s.now = true) :
     step s (.fan (.w j .destroyEnd)) = none := by
   have hti := tinv_reach h
   have hfin : (s.host j).ph = .finished := by
@@ -124,7 +138,7 @@ theorem teardown_waits {v f c scripts} {s : St} (h : Reach v f c scripts s) {j :
     | true => have := (hti.hosts j hj).intrPh hh; rw [hfin] at this; simp at this
   have hng : (s.host j).gone s.now = false := by simpa [Host.alive] using ha
   simp only [step, dstep]
-  cases Fan.step s.fan (.w j .destroyEnd) <;> simp [fanGuard, hint, hng]
+  cases FanG.step s.fan (.w j .destroyEnd) <;> simp [fanGuard, hint, hng]
 
 /-- no signal is ever pending for a target that is being torn down: the wait in `rcmd_destroy` is never
     interrupted, so a command is never given up un-reaped -/
@@ -141,11 +155,12 @@ theorem each_target_connected_once {v f c scripts} {ls : List Label} {s : St}
     (ls.filterMap projLabel).count (.w i .connectBegin) = 1 ∧
     (ls.filterMap projLabel).count (.w i .destroyEnd) = 1 := by
   have hfe := fan_refinement he
-  have hinv := Fan.inv_exec (Fan.inv_init v f scripts.length) hfe
+  have hinv := FanG.inv_exec (FanG.inv_init v f scripts.length) hfe
   have hlen : s.fan.ws.length = scripts.length := by
-    have := (Fan.exec_params hfe).2.2; simpa [Fan.init] using this
-  have hdone : Fan.pc s.fan i = .done := hinv.fin (by rw [hf]; rfl) i (by omega)
-  constructor <;> rw [Fan.hist_exec hfe, hdone] <;> simp [Fan.ord, Fan.WAct.post]
+    have := (FanG.exec_params hfe).2.2; simpa [FanG.init] using this
+  have hout : FanG.isOut (FanG.pc s.fan i) = true := hinv.fin (by rw [hf]; rfl) i (by omega)
+  constructor <;> rw [(FanG.hist_exec hfe).common i _ rfl] <;> revert hout <;>
+    cases FanG.pc s.fan i <;> simp [FanG.isOut, FanG.ord, FanG.WAct.post]
 
 /-- NON-INTERFERENCE (one step): target `j`'s record after any step is `hostStep` of its record before:
     a function of the record, `j`'s own script, the timeouts and the clock — nothing else -/
@@ -180,9 +195,11 @@ theorem healthy_complete {v f c scripts} {ls : List Label} {s : St} (he : Exec (
   have hti := tinv_exec (tinv_init v f c scripts) he
   have hj' : j < s.hs.length := by rw [hl]; exact hj
   -- the worker is done, so the target is finished
-  have hdone : Fan.pc s.fan j = .done := hti.fan.fin (by rw [hf]; rfl) j (by rw [← hti.lenH]; exact hj')
+  have hout : FanG.isOut (FanG.pc s.fan j) = true :=
+    hti.fan.fin (by rw [hf]; rfl) j (by rw [← hti.lenH]; exact hj')
   have hph : (s.host j).ph = .finished := by
-    have := hti.sync j hj'; rw [hdone] at this; simpa [phOK] using this
+    have := hti.sync j hj'; revert hout this
+    cases FanG.pc s.fan j <;> simp [phOK, FanG.isOut]
   obtain ⟨hres, hoc, hec⟩ := h4.fin hph
   have hscr : s.script j = scripts.getD j defaultScript := by simp [St.script, hs]
   refine ⟨hres, ?_, ?_⟩
@@ -293,9 +310,11 @@ theorem immortal_never_returns {v f c scripts} {ls : List Label} {s : St} (he : 
   have hdi := dinv_exec he
   obtain ⟨_, _, hlen, _⟩ := ginv_exec he
   have hj' : j < s.hs.length := by rw [hlen]; exact hj
-  have hdone : Fan.pc s.fan j = .done := hti.fan.fin (by rw [hfin]; rfl) j (by rw [← hti.lenH]; exact hj')
+  have hout : FanG.isOut (FanG.pc s.fan j) = true :=
+    hti.fan.fin (by rw [hfin]; rfl) j (by rw [← hti.lenH]; exact hj')
   have hr : (s.host j).reaped = true := by
-    have := hdi.reap j hj'; rw [hdone] at this; simpa [rpOK] using this
+    have := hdi.reap j hj'; revert hout this
+    cases FanG.pc s.fan j <;> simp [rpOK, FanG.isOut]
   have hgone := (hdi.host j hj').gone hr
   simp [Host.gone, him.started hst] at hgone
 
@@ -342,7 +361,7 @@ theorem never_stuck (s : St) (hnf : ¬ Final s) : ∃ l, l.spurious = false ∧ 
     simp only [cands, List.mem_cons, List.mem_append, List.mem_map, List.mem_flatMap, List.mem_range] at hl
     rcases hl with (rfl | ⟨a, ha, rfl⟩) | ⟨i, _, rfl | ⟨a, _, rfl⟩⟩
     · rfl
-    · simp only [Fan.dActs, List.mem_cons, List.mem_nil_iff, or_false] at ha
+    · simp only [FanG.dActs, List.mem_cons, List.mem_nil_iff, or_false] at ha
       rcases ha with rfl | rfl | rfl | rfl | rfl | rfl | rfl <;> rfl
     · rfl
     · rfl
@@ -362,7 +381,7 @@ example :
        .fan (.d .ret)]
     (ls.foldlM (fun s l => step s l) (init .whileWait 1 { ct := 1, ut := 1, sopt := false, selfCheck := false, stopWdog := false } scripts)).map
       (fun s => (s.now, (s.host 0).res, (s.host 1).res, (s.host 1).out.got, s.fan.dpc)) =
-      some (2, Res.connTimedOut, Res.done, 3, Fan.DPC.returned) := by
+      some (2, Res.connTimedOut, Res.done, 3, FanG.DPC.returned) := by
   decide
 
 /-- witness for `immortal_never_returns` (and for the teardown phase): fanout 1, both timeouts 1, one target whose
@@ -377,10 +396,10 @@ example :
        .tick, .tick, .scan, .wake 0, .fan (.w 0 .destroyBegin),
        .tick, .tick, .scan, .tick, .tick, .scan, .tick]
     (ls.foldlM (fun s l => step s l) (init .whileWait 1 { ct := 1, ut := 1, sopt := false, selfCheck := false, stopWdog := false } scripts)).map
-      (fun s => (s.now, (s.host 0).res, Fan.pc s.fan 0,
+      (fun s => (s.now, (s.host 0).res, FanG.pc s.fan 0,
                  (step s (.fan (.w 0 .destroyEnd))).isNone && s.inflight == 1 && s.alive == 1 &&
                  (step s .tick).isSome)) =
-      some (7, Res.cmdTimedOut, Fan.W.tearing, true) := by
+      some (7, Res.cmdTimedOut, FanG.W.tearing, true) := by
   decide
 
 /-- the same target, but it dies 1 s after SIGTERM (`grace = some 1`, `Td c 1`): given up on at second 2, gone at
@@ -395,7 +414,100 @@ example :
        .fan (.d .unlock), .fan (.d .ret)]
     (ls.foldlM (fun s l => step s l) (init .whileWait 1 { ct := 1, ut := 1, sopt := false, selfCheck := false, stopWdog := false } scripts)).map
       (fun s => (s.now, (s.host 0).res, (s.host 0).reaped, s.inflight, s.fan.dpc)) =
-      some (3, Res.cmdTimedOut, true, 0, Fan.DPC.returned) := by
+      some (3, Res.cmdTimedOut, true, 0, FanG.DPC.returned) := by
   decide
+
+
+/-! ## `-k`: fail-fast (`Dsh/TimedK.lean`)
+
+The property's exception clause.  With `-k`, a worker whose target failed (connect refused / timed out, command
+timed out, or remote exit status > 0) and that has left `rcmd_destroy` ends the whole run: it forwards SIGTERM to
+every target that is READING and pdsh exits.  Without `-k`, and in `-k` runs up to that moment, the system IS the
+timed LTS above. -/
+namespace K
+open PdshVerif.Dsh.TimedK
+
+/-- FAIL-FAST, enabled: under `-k` the exit of pdsh is enabled as soon as a failed target's worker has left
+    `rcmd_destroy` -- whatever the other workers, the dispatcher, the mutex and the watchdog are doing -/
+theorem failfast_enabled {s : TimedK.St} (hne : s.exited = false) {i : Nat} (ha : aborting s i = true) :
+    ∃ s', TimedK.step s (.abort i) = some s' ∧ s'.exited = true :=
+  ⟨{ s with exited := true, t := sigtermAll s.t }, by simp [TimedK.step, hne, ha], rfl⟩
+
+/-- FAIL-FAST, now: while that exit is pending the clock cannot advance (no waiting for any other host, hanging
+    or not, timeout or not), and the failed worker does not go on to give its slot back -/
+theorem failfast_now {s : TimedK.St} {i : Nat} (ha : aborting s i = true) :
+    TimedK.step s (.t .tick) = none ∧ TimedK.step s (.t (.fan (.w i .lock))) = none := by
+  have hany := mem_range_aborting ha
+  constructor
+  · simp [TimedK.step, hany]
+  · simp [TimedK.step, ha]
+
+/-- after the exit nothing happens -/
+theorem exit_is_end {s : TimedK.St} (he : s.exited = true) (l : TimedK.Label) : TimedK.step s l = none := by
+  cases l with
+  | t l => simp [TimedK.step, he]
+  | abort i => simp [TimedK.step, he]
+
+/-- the exit forwards SIGTERM to every target that is READING (`_fwd_signal`): its command is gone `grace` seconds
+    later at the latest (unless it ignores SIGTERM) -- and touches no other target's record -/
+theorem abort_signals_reading {s s' : TimedK.St} {i : Nat} (h : TimedK.step s (.abort i) = some s') (j : Nat)
+    (hj : j < s.t.hs.length) :
+    s'.t.host j =
+      if (s.t.host j).ph = .reading then
+        { s.t.host j with death := termDeath (s.t.host j).grace s.t.now (s.t.host j).death }
+      else s.t.host j := by
+  obtain ⟨_, _, rfl⟩ := step_abort h
+  exact host_sigtermAll s.t j hj
+
+/-- until pdsh exits a `-k` run is a run of the timed LTS (same labels): every theorem above -- non-interference,
+    healthy targets never interrupted, both deadlines, the fanout bound -- holds of it -/
+theorem refines_timed {v f c scripts k nz} {ls : List TimedK.Label} {s : TimedK.St}
+    (he : TimedK.Exec (TimedK.init v f c scripts k nz) ls s) (hne : s.exited = false) :
+    Timed.Exec (Timed.init v f c scripts) (ls.filterMap TimedK.projLabel) s.t :=
+  TimedK.refines_timed he hne
+
+/-- fail-fast ONLY IF ASKED: without `-k` there is no exit, and every step is exactly the timed LTS's step -/
+theorem without_k_is_timed {v f c scripts nz} {ls : List TimedK.Label} {s : TimedK.St}
+    (he : TimedK.Exec (TimedK.init v f c scripts false nz) ls s) :
+    s.exited = false ∧ (∀ i, TimedK.step s (.abort i) = none) ∧
+      ∀ l, TimedK.step s (.t l) = TimedK.lift s l := by
+  have hk := (flags_const he).1
+  have hex : s.exited = false := by
+    induction he with
+    | nil => rfl
+    | snoc he0 hs ih =>
+      rename_i ls0 s0 l0 s1
+      cases l0 with
+      | t l => exact (step_t hs).2.2.2.2
+      | abort i =>
+        obtain ⟨_, ha, _⟩ := step_abort hs
+        rw [aborting_of_not_k (flags_const he0).1 i] at ha; cases ha
+  refine ⟨hex, ?_, ?_⟩
+  · intro i; simp [TimedK.step, aborting_of_not_k hk i]
+  · intro l
+    simp only [TimedK.step, hex]
+    cases l with
+    | tick => simp [anyAborting_of_not_k hk]
+    | scan => simp
+    | wake i => simp
+    | fan fl =>
+      cases fl with
+      | d a => simp
+      | w i a => cases a <;> simp [aborting_of_not_k hk i]
+
+/-- non-vacuity: fanout 2, `-k`, connect timeout 5, no command timeout; target 0 refuses the connection, target 1
+    accepts and then hangs for ever (nothing would ever end this run without `-k`).  Worker 0's connect fails, it
+    tears down, and pdsh exits -- at virtual time 0, with SIGTERM forwarded to the reading target 1 -/
+example : (TimedK.run (TimedK.init .whileWait 2 { ct := 5, ut := 0, sopt := false, selfCheck := true, stopWdog := true }
+      [{ conn := .refuse 0, out := [], err := [] },
+       { conn := .ok 0, out := [⟨none, .eof⟩], err := [], life := none, grace := some 0 }] true [false, false])
+    [.t (.fan (.d .lock)), .t (.fan (.d (.create 0))), .t (.fan (.d .unlock)),
+     .t (.fan (.d .lock)), .t (.fan (.d (.create 1))), .t (.fan (.d .unlock)),
+     .t (.fan (.w 1 .connectBegin)), .t (.fan (.w 1 .connectEnd)),
+     .t (.fan (.w 0 .connectBegin)), .t (.fan (.w 0 .connectEnd)),
+     .t (.fan (.w 0 .destroyBegin)), .t (.fan (.w 0 .destroyEnd)), .abort 0]).map
+    (fun s => (s.exited, s.t.now, (s.t.host 1).death)) = some (true, 0, some 0) := by decide
+
+end K
 
 end PdshVerif.Props.C07
